@@ -188,7 +188,7 @@ def gen_cases(tier, seed):
     variants = ["windmeier", "nonzero", "random", "tank"]
     nm = 8 if tier == "quick" else 80
     for i in range(nm):
-        cases.append({"kind": "model", "variant": variants[i % 4], "sub": int(rng.integers(1 << 31)), "cost": 12})
+        cases.append({"kind": "model", "variant": variants[i % 4], "sub": int(rng.integers(1 << 31)), "cost": 12, "big": [1200000, 2500000, 1000001][i % 3] if i % 4 == 1 else None})
     qs = [1e-6, 1e-3, 0.05, 0.5, 0.95, 0.999, 1 - 1e-4, 1 - 1e-6, 1 - 1e-8]
     nc = 2 if tier == "quick" else 12
     for r in range(nc):
@@ -293,6 +293,22 @@ def _model(case, ctx):
         b = BASE_SAMPLES[-1]
         okd = smp.shape == b.shape and bool(np.allclose(smp[:, 0], b[:, 0], rtol=1e-14, atol=0)) and bool(np.allclose(smp[:, 1], tz_of(b[:, 0], b[:, 1]), rtol=1e-12, atol=0))
     ctx.check("c16.sample-is-inverse-of-base", okd, "TransformedModel.draw_sample is not the inverse-transformed sample of the base model", observed_base_draws=len(BASE_SAMPLES), **info)
+    # size as an input class: a seeded sample of more than a million rows (what a small-alpha contour draws)
+    if case.get("big"):
+        nb = int(case["big"])
+        sd = int(rng.integers(1 << 30))
+        BASE_SAMPLES.clear()
+        big = np.asarray(tm.draw_sample(nb, random_state=sd), float)
+        okb = big.shape == (nb, 2)
+        base_rows = np.concatenate(BASE_SAMPLES) if BASE_SAMPLES else np.empty((0, 2))
+        if okb:
+            okb = base_rows.shape == big.shape and bool(np.allclose(big[:, 0], base_rows[:, 0], rtol=1e-14, atol=0)) and bool(np.allclose(big[:, 1], tz_of(base_rows[:, 0], base_rows[:, 1]), rtol=1e-12, atol=0))
+        ctx.check("c16.sample-is-inverse-of-base", okb, "TransformedModel.draw_sample (more than a million rows, seeded) is not the inverse-transformed sample of the base model", n=nb, shape=list(big.shape), observed_base_draws=len(BASE_SAMPLES), **info)
+        with M.quiet():
+            want_base = np.asarray(base.draw_sample(nb, random_state=sd), float)
+        same_stream = big.shape == want_base.shape and bool(np.allclose(big[:, 0], want_base[:, 0], rtol=1e-14, atol=0))
+        ctx.check("c16.sample-is-inverse-of-base", same_stream, "a seeded sample of the transformed model is not the transform of the base model's sample for that seed", n=nb, distinct_rows=int(np.unique(big[:, 0]).size), **info)
+        ctx.cls("big-sample", nb)
     # cdf against the exact cdf; empirical cdf within the multivariate DKW band
     q = [float(rng.uniform(0.3, 0.9)), float(rng.uniform(0.3, 0.9))]
     U = np.array([[sp.ndtri(q[0]), sp.ndtri(q[1])]])
